@@ -95,7 +95,6 @@ EvalAead(c, st, e) ==
          IN Res(OpenAgrees(e, IdealOpen(st, n, a, ct)), st, "modified input accepted")
 
 \* ------------------------------------------------------------------ key derivation (leaf table c.L)
-Ver(p) == p.ver
 KdfOut(c) ==
   LET p == c.p  T == c.L IN
   CASE c.fn = "hmac" -> <<HmacRfc2104(T, p.h, p.key, p.msg)>>
@@ -123,9 +122,10 @@ KdfOut(c) ==
     [] c.fn = "keyupdate13" ->
          LET k == KeyUpdate13(T, p.h, p.secret, p.keyLen) IN <<k.secret, k.key, k.iv>>
     [] c.fn = "finished13" -> <<Finished13(T, p.h, p.secret, p.msgs)>>
+    [] c.fn = "binder13" -> <<PskBinder(T, p.h, p.psk, p.external, p.msgs)>>
 KdfFns == {"hmac", "p_hash", "prf10", "prf12", "prf_ssl", "master_secret", "ext_master_secret", "key_expansion",
            "finished", "digest_ssl", "mac_ssl", "pending_states", "exporter", "hkdf_expand", "hkdf_expand_label",
-           "derive_secret", "pending13", "keyupdate13", "finished13"}
+           "derive_secret", "pending13", "keyupdate13", "finished13", "binder13"}
 \* a call on a KDF case: {outs: [bytes, ...], refused: bool}.  The standard defines a value for every input in
 \* its domain (HKDF: L <= 255*HashLen), so a refusal there is a deviation.
 EvalKdf(c, st, e) ==
